@@ -175,6 +175,9 @@ func (*c14Prop) Gen(r *Rand, pl *Plan) Case {
 		c.Graphs = append(c.Graphs, genGraphSpec(r))
 	}
 	nt := r.Range(2, 4)
+	if r.Chance(1, 8) {
+		nt = r.Range(5, 7) // more callers than a typical test would start
+	}
 	for i := 0; i < nt; i++ {
 		t := c14Task{Graph: r.Intn(ng), Eval: r.Chance(2, 3), StaticCheck: r.Chance(1, 6)}
 		spec := &c.Graphs[t.Graph]
